@@ -19,7 +19,7 @@ from vf.scenario import HINT, ClientLog, Template
 from vf.sched import PCT, RandomWalk, Scheduler, SchedEnv, Scripted, adopt, explore_bounded
 
 GRACE_MS = 3600 * 1000
-TXKINDS = ["commit_open", "append", "multi", "delete_append", "failing_commit"]
+TXKINDS = ["commit_open", "append", "multi", "delete_append", "failing_commit", "prebuilt"]
 
 
 def build_seed(path: str) -> None:
@@ -131,6 +131,23 @@ class Exec:
                         tx.append_data(tables.rows([base + 1, base + 2]))      # written + aged before GC starts
                         fn = tx.commit
                         ids = [base + 1, base + 2]
+                    elif kind == "prebuilt":
+                        # a pre-built, already old parquet file appended with append_files()
+                        import pyarrow as pa
+                        import pyarrow.parquet as pq
+                        from datashard.data_structures import DataFile, FileFormat
+
+                        ids = [base + 1, base + 2]
+                        rel = f"data/prebuilt_{i}.parquet"
+                        fp = os.path.join(root, rel)
+                        pq.write_table(pa.Table.from_pylist(tables.rows(ids), schema=pa.schema(
+                            [pa.field("id", pa.int64(), nullable=False), pa.field("v", pa.string())])), fp)
+                        told = time.time() - 7200
+                        os.utime(fp, (told, told))
+                        tx = t.new_transaction().begin()
+                        tx.append_files([DataFile(file_path="/" + rel, file_format=FileFormat.PARQUET, partition_values={},
+                                                  record_count=2, file_size_in_bytes=os.path.getsize(fp))])
+                        fn = tx.commit
                     elif kind in ("append", "failing_commit"):
                         ids = [base + 1]
                         fn = (lambda t=t, ids=ids: t.append_records(tables.rows(ids)))
@@ -213,7 +230,7 @@ class C06(Check):
     def gen_cases(self, tier: str, seed: int):
         for kind in TXKINDS:
             yield {"mode": "dfs", "txs": [kind], "k": 1, "shard": 0, "nshards": 1}
-        k2 = ["commit_open", "append", "delete_append"] if tier == "quick" else TXKINDS
+        k2 = ["commit_open", "append", "delete_append", "prebuilt"] if tier == "quick" else TXKINDS
         for kind in k2:
             for sh in range(8):
                 yield {"mode": "dfs", "txs": [kind], "k": 2, "shard": sh, "nshards": 8}
@@ -228,7 +245,7 @@ class C06(Check):
         nrand = 40 if tier == "quick" else 500
         for i in range(nrand):
             rng = rng_for(seed, "c06r", i)
-            yield {"mode": rng.choice(["pct", "random"]), "txs": [rng.choice(TXKINDS), rng.choice(TXKINDS[:4])],
+            yield {"mode": rng.choice(["pct", "random"]), "txs": [rng.choice(TXKINDS), rng.choice(TXKINDS[:4] + ["prebuilt"])],
                    "seed": seed * 100000 + i, "runs": 6 if tier == "quick" else 12,
                    "age": rng.choice(["before_gc", "before_gc", "always"]) if False else "before_gc"}
 
